@@ -3,7 +3,7 @@ CONSTANTS
   Listeners = {l1, l2}
   Limit = 2
   Shared = FALSE
-  Ways = {"quit", "quitq", "midrequest", "protoerr", "oversize", "idle"}
+  Ways = {"quit", "quitq", "midrequest", "protoerr", "oversize", "idle", "idlemid"}
 SPECIFICATION Spec
 INVARIANT LimitEnforced
 INVARIANT Conservation
